@@ -8,6 +8,7 @@ import (
 	"fmt"
 	"net"
 	"sync"
+	"time"
 
 	"github.com/libp2p/go-libp2p/core/crypto"
 	"github.com/libp2p/go-libp2p/core/network"
@@ -71,6 +72,10 @@ type Side struct {
 	Muxer    *RecMuxer // recording decorator around the real yamux transport
 }
 
+// AcceptTimeout is the upgrader's accept timeout (its default value, set explicitly so that the harness
+// knows it).
+const AcceptTimeout = 15 * time.Second
+
 // FixedPSK is the 32-byte pre-shared key used by every PSK configuration.
 var FixedPSK = ipnet.PSK("0123456789abcdef0123456789abcdef")
 
@@ -106,6 +111,7 @@ func NewSide(name string, cfg Config, seed int64, addr ma.Multiaddr, opts ...upg
 		s.PSK = FixedPSK
 	}
 	s.Muxer = &RecMuxer{Real: yamux.DefaultTransport}
+	opts = append([]upgrader.Option{upgrader.WithAcceptTimeout(AcceptTimeout)}, opts...)
 	s.Upgrader, err = NewUpgrader(cfg, priv, s.PSK, s.RM, s.Gater, s.Muxer, opts...)
 	if err != nil {
 		real.Close()
@@ -152,6 +158,7 @@ type RecMuxer struct {
 	mu    sync.Mutex
 	calls int
 	conns []network.MuxedConn
+	at    []time.Time // when each of conns was created
 	errs  []error
 }
 
@@ -161,6 +168,7 @@ func (m *RecMuxer) NewConn(c net.Conn, isServer bool, scope network.PeerScope) (
 	m.calls++
 	if err == nil {
 		m.conns = append(m.conns, mc)
+		m.at = append(m.at, time.Now())
 	} else {
 		m.errs = append(m.errs, err)
 	}
@@ -173,6 +181,13 @@ func (m *RecMuxer) Conns() []network.MuxedConn {
 	m.mu.Lock()
 	defer m.mu.Unlock()
 	return append([]network.MuxedConn(nil), m.conns...)
+}
+
+// CreatedAt returns the creation times of Conns().
+func (m *RecMuxer) CreatedAt() []time.Time {
+	m.mu.Lock()
+	defer m.mu.Unlock()
+	return append([]time.Time(nil), m.at...)
 }
 
 // Calls returns how often NewConn was called.
